@@ -41,7 +41,7 @@ Abs(x) == IF x < 0 THEN -x ELSE x
 RECURSIVE Pow2(_)
 Pow2(k) == IF k <= 0 THEN 1 ELSE 2 * Pow2(k - 1)
 
-Dead == [ok |-> FALSE, m |-> [i \in Slot |-> <<0, 0>>], fb |-> 0, ls |-> 0, sx |-> [two |-> 0, e |-> <<>>], lvl |-> 0, deg |-> 1, md |-> 0]
+Dead == [ok |-> FALSE, m |-> [i \in Slot |-> <<0, 0>>], fb |-> 0, ls |-> 0, sx |-> [two |-> 0, e |-> <<>>], lvl |-> 0, deg |-> 1, md |-> 0, ld |-> 0]
 
 \* complex arithmetic on numerators
 CAdd(x, y) == <<x[1] + y[1], x[2] + y[2]>>
@@ -97,7 +97,7 @@ LvlOut(st) == Min2(reg[st.a].lvl, Min2(BLvl(st.b), IF st.new THEN L ELSE reg[st.
 \* that rounding it to an integer is immaterial (the documented integer-ratio alignment)
 Compatible(ls0, ls1) == LET d == Abs(ls0 - ls1) IN d <= 64 \/ d >= 20 * 1048576
 
-MkOut(m, fb, sx, lvl, deg, md) == [ok |-> TRUE, m |-> m, fb |-> fb, ls |-> LsOf(sx), sx |-> sx, lvl |-> lvl, deg |-> deg, md |-> md]
+MkOut(m, fb, sx, lvl, deg, md) == [ok |-> TRUE, m |-> m, fb |-> fb, ls |-> LsOf(sx), sx |-> sx, lvl |-> lvl, deg |-> deg, md |-> md, ld |-> 0]
 \* the larger of two scales (they are compatible: equal, or far apart)
 SxMax(x, y) == IF LsOf(x) >= LsOf(y) THEN x ELSE y
 \* ordering of scales is only modelled when it is unambiguous at the resolution of ls
@@ -245,6 +245,16 @@ Callable(st) ==
 \* the real values of the conjugate-invariant ring have no imaginary part
 RealOK(r) == Real => \A i \in Slot : r.m[i][2] = 0
 
+\* slot dimensions recorded on the output (ld = 0: the dimensions of the parameter set's plaintexts, 1: the maximum): the
+\* larger of the two operands' for a binary operation between ciphertexts, the input's otherwise. Accumulating and
+\* plaintext / vector operands are only driven between registers of equal dimensions (see LdSafe).
+LdOut(st) == IF st.op \in {"Add", "Sub", "Mul", "MulRelin"} /\ st.b.k = "ct" THEN Max2(reg[st.a].ld, reg[st.b.r].ld)
+             ELSE reg[st.a].ld
+LdSafe(st) ==
+    LET la == reg[st.a].ld IN
+    /\ (st.op \in {"MulThenAdd", "MulRelinThenAdd"} => reg[st.o].ld = la /\ (st.b.k = "ct" => reg[st.b.r].ld = la))
+    /\ (st.op \in BinOps /\ st.b.k \in {"pt", "vec"} => la = 0)
+
 \* ch.deg: degree reported by the implementation where two are admissible; ch.err: error reported; ch.lvl: level reported
 Call(st, ch) ==
     /\ Callable(st)
@@ -254,14 +264,14 @@ Call(st, ch) ==
        /\ (~r.err => ch.deg \in r.degs)
        \* ch.lvl: the rotation by 0 is a plain copy, which may keep the level of its input where the general path takes the minimum
        /\ reg' = [reg EXCEPT ![st.o] = IF r.err THEN Dead
-                                       ELSE [r.out EXCEPT !.deg = ch.deg,
+                                       ELSE [r.out EXCEPT !.deg = ch.deg, !.ld = LdOut(st),
                                                           !.lvl = IF st.op = "Rotate" /\ st.k = 0 /\ ch.lvl = reg[st.a].lvl THEN ch.lvl ELSE @]]
     /\ UNCHANGED keys
 
-Load(o, v, fb, ls, lvl) ==
-    /\ o \in Reg /\ lvl \in 0..L
+Load(o, v, fb, ls, lvl, ld) ==
+    /\ o \in Reg /\ lvl \in 0..L /\ ld \in 0..1
     /\ ls % 1048576 = 0
-    /\ reg' = [reg EXCEPT ![o] = MkOut(v, fb, SxPow2(ls \div 1048576), lvl, 1, 0)]
+    /\ reg' = [reg EXCEPT ![o] = [MkOut(v, fb, SxPow2(ls \div 1048576), lvl, 1, 0) EXCEPT !.ld = ld]]
     /\ UNCHANGED keys
 
 DropLevel(a, k) ==
@@ -279,7 +289,7 @@ SetScale(a, k, err) ==
     /\ Abs(reg[a].ls - (DeltaBits + k) * 1048576) <= 8 * 1048576      \* contract covered here: a ratio within 2^-8 .. 2^8
     /\ err = SetScaleErr(a, k)
     /\ reg' = [reg EXCEPT ![a] = IF err THEN Dead
-                                ELSE MkOut(reg[a].m, reg[a].fb, SxPow2(DeltaBits + k), IF SetScaleInt(a, k) THEN reg[a].lvl ELSE reg[a].lvl - K, reg[a].deg, reg[a].md)]
+                                ELSE [MkOut(reg[a].m, reg[a].fb, SxPow2(DeltaBits + k), IF SetScaleInt(a, k) THEN reg[a].lvl ELSE reg[a].lvl - K, reg[a].deg, reg[a].md) EXCEPT !.ld = reg[a].ld]]
     /\ UNCHANGED keys
 
 Reset(ks) == keys' = ks /\ reg' = [r \in Reg |-> Dead]
